@@ -134,9 +134,11 @@ class C02Episode(Episode):
                               once=(r.idx, p.pid), state=p.state)
             if r.cmd in ('stop', 'quit', 'rm') and \
                     not self.started_since(r, m) and \
-                    not (m in self.ondemand_markers and self.pending_conn):
+                    not (m in self.ondemand_markers and
+                         (self.pending_conn or self.accept_seq > r.disp_seq)):
                 # (an un-accepted connection is a socket event that is still
-                # to come for an on-demand watcher)
+                # to come for an on-demand watcher; so is one that was taken
+                # between this request's dispatch and its reply)
                 self.stopped_markers[m] = r.idx
             if r.cmd == 'rm':
                 self.removed.add(m)
